@@ -20,8 +20,8 @@ from tally.classification import normalize_amount
 
 def spec_for(s, fmt):
     fs = parse_format_string(fmt, s.get('template'))
-    if s['delimiter'] is not None:
-        fs.delimiter = s['delimiter']
+    if s.get('_delimiter') is not None:
+        fs.delimiter = s['_delimiter']
     if s['has_header'] is not None:
         fs.has_header = s['has_header']
     if s.get('negate_amount') is not None:
@@ -41,6 +41,8 @@ def supp_rows(s):
 def main():
     p = json.load(sys.stdin)
     root, spec, fmts = p['root'], p['spec'], p['fmts']
+    for s_, d_ in zip(spec['sources'], p['delims']):
+        s_['_delimiter'] = d_      # the delimiter setting as written in settings.yaml
     mode = spec.get('rule_mode') or 'first_match'
     kind = spec['rules']['kind']
     path = {'rules': os.path.join(root, 'config', 'merchants.rules'),
